@@ -344,3 +344,7 @@ where
             .is_some()
     }
 }
+
+#[cfg(kani)]
+#[path = "/verif/kani/aranya-runtime/client.rs"]
+mod verif_kani;
